@@ -119,6 +119,18 @@ def run(chk):
     nd, ed, rejd = D.run_scripts(chk, dscripts, "c02")
     D.handle(chk, rejd, "c02")
     cov["datadog_client"] = {"traces": nd, "events": ed}
+    # the real connections under the client (TCP Forward connection with its deadlines, HTTP connection of the Datadog output):
+    # end-to-end histories in which the upstream is silent, late, resetting or refusing and finally healthy - everything has to
+    # be retransmitted and acknowledged while the agent keeps running or after a restart (observer AgentTrace, NoLoss / Drained)
+    from checks import agcommon as A
+    words = ("silent", "late", "refuse", "reset", "never-ack", "datadog", "stop-mid-retry")
+    escripts = [s for s in A.stories() if any(w in s["id"] for w in words)]
+    ne, ee, reje, consts = A.run_scripts(chk, escripts, ("P01",), "c02e")
+    A.handle(chk, reje, ("P01",), "c02e", consts)
+    cov["end_to_end_real_connections"] = {"histories": ne, "events": ee}
+    # the connection contract the client's specification assumes, on the real Forward connection (TCP and TLS)
+    from checks import fccommon
+    cov["connection_contract_traces"] = fccommon.run(chk, rnd, thorough)
     kinds = kinds1 | kinds2 | kinds3
     total_kinds = sum(1 if k is None else len(v) for _, k, v in F.EVENT_KINDS)
     cov.update({
@@ -128,14 +140,14 @@ def run(chk):
         "evaluations": n1 + n2 + n3,
         "distinct_nontrivial": len({json.dumps({k: s[k] for k in ("dial", "send", "ack", "ping", "env", "maxDurMs", "inorder")}, sort_keys=True)
                                     for s in scripts + scripts_io if any(x != "ok" for x in s["dial"] + s["send"]) or any(x != "ack" for x in s["ack"]) or any(e["do"] != "feed" for e in s["env"])}),
-        "rule": "scripts = environment projection of TLC -simulate behaviours of Forwarder (sim cfg: 4 chunks, AckCap 2, 4 faults, 2 soft reconnects, stop, steal) plus seeded random fault scripts; non-trivial = at least one fault outcome, stop, steal or soft reconnect; distinct by script content; Datadog client (same client over an HTTP connection, Close a no-op, anonymous immediate acknowledgement): 5 stories + seeded scripts of 2-7 chunks against an intake answering 200/202/299/300/404/500/hang/reset per request, stop at 0-900 ms, observer DatadogTrace (confirm only after 2xx, resolved once, oldest first, bounded stop, everything confirmed once the intake recovers)",
+        "rule": "scripts = environment projection of TLC -simulate behaviours of Forwarder (sim cfg: 4 chunks, AckCap 2, 4 faults, 2 soft reconnects, stop, steal) plus seeded random fault scripts; non-trivial = at least one fault outcome, stop, steal or soft reconnect; distinct by script content; Datadog client (same client over an HTTP connection, Close cancels the request in flight, anonymous immediate acknowledgement): 5 stories + seeded scripts of 2-7 chunks against an intake answering 200/202/299/300/404/500/hang/reset per request, stop at 0-900 ms, observer DatadogTrace (confirm only after 2xx, resolved once, oldest first, bounded stop, everything confirmed once the intake recovers)",
         "event_kinds_seen": sorted(kinds), "event_kinds_total": total_kinds,
         "samples": [scripts[0], scripts[len(scripts) // 2], scripts_io[0]],
         "max_stop_to_finished_ms": max(stop1 + stop2 + stop3 + [0]),
     })
     selftest(chk, os.path.join(chk.scratch, "fwd-main", "trace0.ndjson"), ackcap, cov)
     chk.assumptions += [
-        "the connection honours the ClosableClientConnection contract: Close cancels pending I/O (a connection that ignores Close is outside the spec)",
+        "the ClosableClientConnection contract the client's spec assumes (an operation ends with the answer, at its deadline or at Close) is modelled in Connection.tla and checked on the real Forward connection over TCP and TLS by ConnTrace with a tolerance of 150 ms; the shared-key handshake is not exercised",
         "scripts realise TLC behaviours only up to the code's own nondeterminism; the verdict comes from validating what really happened",
         "a rejection counts as a violation only if a re-run of the same script is rejected again"]
 
